@@ -7,6 +7,7 @@ import (
 	"fmt"
 	"math/rand"
 	"os"
+	"path/filepath"
 	"sort"
 	"strings"
 	"testing"
@@ -20,6 +21,10 @@ import (
 
 // vContentPartial walks a tree like vContent but keeps going: files whose blobs cannot all be loaded and
 // directories whose tree cannot be loaded are reported as "unreadable".
+// vMaxUnavailableRun: longest run of neighbouring unavailable content entries of one file seen by vContentPartial
+// (coverage bookkeeping only).
+var vMaxUnavailableRun int
+
 func vContentPartial(ctx context.Context, repo restic.Repository, tree restic.ID) map[string]string {
 	res := map[string]string{}
 	var walk func(id restic.ID, prefix string) bool
@@ -38,12 +43,17 @@ func vContentPartial(ctx context.Context, repo restic.Repository, tree restic.ID
 			case data.NodeTypeFile:
 				h := sha256.New()
 				ok := true
+				run := 0
 				for _, c := range n.Content {
 					buf, err := repo.LoadBlob(ctx, restic.BlobHandle{ID: c, Type: restic.DataBlob}, nil)
 					if err != nil {
 						ok = false
-						break
+						if run++; run > vMaxUnavailableRun {
+							vMaxUnavailableRun = run
+						}
+						continue
 					}
+					run = 0
 					h.Write(buf)
 				}
 				if ok {
@@ -94,15 +104,255 @@ func vSnapshotViews(t testing.TB, e *vEnv) (map[string]map[string]string, map[st
 	return views, orig, nil
 }
 
+// c34Env is what one C34 scenario works on.
+type c34Env struct {
+	l    *vLife
+	e    *vEnv
+	r    *rand.Rand
+	proj *kit.Projector
+}
+
+func (c *c34Env) get(name string) []byte {
+	d, _ := c.e.store.Get(backend.Handle{Type: backend.PackFile, Name: name})
+	return append([]byte{}, d...)
+}
+
+func (c *c34Env) put(name string, d []byte) {
+	c.e.store.EnvPut(backend.Handle{Type: backend.PackFile, Name: name}, d)
+}
+
+// blobsOf lists the blobs of a stored pack in offset order (nil if its header is unreadable).
+func (c *c34Env) blobsOf(name string) []kit.PackBlobInfo {
+	bl, _, _ := kit.NewProjector(c.proj.Key).DecodePack(c.get(name), false)
+	return bl
+}
+
+// dataPacks returns those of the named packs that hold data blobs.
+func (c *c34Env) dataPacks(names []string) []string {
+	var res []string
+	for _, n := range names {
+		if bl := c.blobsOf(n); len(bl) > 0 && bl[0].Type == "d" {
+			res = append(res, n)
+		}
+	}
+	return res
+}
+
+// flipBlobs flips one bit inside each of the given blobs (indices in offset order) of a pack.
+func (c *c34Env) flipBlobs(name string, which []int) {
+	d := c.get(name)
+	bl := c.blobsOf(name)
+	for _, i := range which {
+		if i < len(bl) && bl[i].Length > 0 {
+			d[int(bl[i].Offset)+c.r.Intn(int(bl[i].Length))] ^= byte(1 << uint(c.r.Intn(8)))
+		}
+	}
+	c.put(name, d)
+}
+
+// unindexedPacks lists the stored packs that no index file mentions.
+func (c *c34Env) unindexedPacks() []string {
+	repo, err := c.e.open()
+	if err != nil {
+		return nil
+	}
+	if err := repo.LoadIndex(context.Background(), restic.NoopTerminalCounterFactory); err != nil {
+		return nil
+	}
+	indexed := map[string]bool{}
+	_ = repo.ListBlobs(context.Background(), func(pb restic.PackBlob) { indexed[pb.PackID().String()] = true })
+	var res []string
+	for _, n := range c.e.store.Names(backend.PackFile) {
+		if !indexed[n] {
+			res = append(res, n)
+		}
+	}
+	return res
+}
+
+// ghostID returns an id no pack has; how = "low" / "high" puts it before / behind (nearly) every real pack in the
+// order in which the index hands out the named packs (low nibble of the first byte), "rand" anywhere.
+func (c *c34Env) ghostID(how string) string {
+	id := restic.Hash([]byte(fmt.Sprintf("ghost-pack-%d", c.r.Int())))
+	switch how {
+	case "low":
+		id[0] &= 0xf0
+	case "high":
+		id[0] |= 0x0f
+	}
+	return id.String()
+}
+
+// c34Damage breaks the repository as the scenario class says.  It returns the `repair packs` invocations to make
+// (lists of ids; an empty list stands for `repair index`), and a description.
+func c34Damage(c *c34Env, class string) (runs [][]string, desc string) {
+	e, r := c.e, c.r
+	packs := e.store.Names(backend.PackFile)
+	switch class {
+	case "craft":
+		// files with several blobs; damage that takes out runs of neighbouring content entries
+		var cand []string
+		what := r.Intn(4) // 0: shared chunks only, 1, 2: long files only, 3: both
+		if what == 0 || what == 3 {
+			before := map[string]bool{}
+			for _, n := range e.store.Names(backend.PackFile) {
+				before[n] = true
+			}
+			if _, _, err := vCraftSharedChunks(e, r); err == nil {
+				for _, n := range e.store.Names(backend.PackFile) {
+					if !before[n] {
+						cand = append(cand, n)
+					}
+				}
+			}
+			desc = "shared-chunks "
+		}
+		if what != 0 {
+			if _, sessions, err := vCraftLongFiles(e, r); err == nil {
+				for _, s := range sessions {
+					cand = append(cand, s...)
+				}
+			}
+			desc += "long-files "
+		}
+		cand = c.dataPacks(cand)
+		if len(cand) == 0 {
+			cand = c.dataPacks(packs)
+		}
+		victim := cand[r.Intn(len(cand))]
+		bl := c.blobsOf(victim)
+		switch kind := r.Intn(5); {
+		case kind == 0:
+			e.store.EnvRemove(backend.Handle{Type: backend.PackFile, Name: victim})
+			if r.Intn(2) == 0 {
+				return [][]string{{}}, desc + fmt.Sprintf("pack %.8s lost; repair index", victim)
+			}
+			return [][]string{{victim}}, desc + fmt.Sprintf("pack %.8s lost", victim)
+		case kind == 1 && len(bl) > 0:
+			// cut inside the blob area: a prefix of the blobs survives, the header is gone
+			k := r.Intn(len(bl))
+			at := int(bl[k].Offset) + r.Intn(int(bl[k].Length))
+			c.put(victim, c.get(victim)[:at])
+			return [][]string{{victim}}, desc + fmt.Sprintf("pack %.8s cut in blob %d of %d", victim, k, len(bl))
+		case kind == 2 && len(bl) >= 2:
+			k := r.Intn(len(bl) - 1)
+			c.flipBlobs(victim, []int{k, k + 1})
+			return [][]string{{victim}}, desc + fmt.Sprintf("pack %.8s blobs %d,%d of %d flipped", victim, k, k+1, len(bl))
+		case kind == 3 && len(bl) >= 3:
+			k := r.Intn(len(bl) - 2)
+			c.flipBlobs(victim, []int{k, k + 1, k + 2})
+			return [][]string{{victim}}, desc + fmt.Sprintf("pack %.8s blobs %d..%d of %d flipped", victim, k, k+2, len(bl))
+		default:
+			k := 0
+			if len(bl) > 0 {
+				k = r.Intn(len(bl))
+			}
+			c.flipBlobs(victim, []int{k})
+			return [][]string{{victim}}, desc + fmt.Sprintf("pack %.8s blob %d of %d flipped", victim, k, len(bl))
+		}
+	case "multi":
+		// `repair packs` with several ids: ids for which neither the index nor a readable header yields a blob
+		// (an id that does not exist, a pack an earlier run already removed, an unindexed pack with a broken
+		// header) and unindexed packs with a readable header, mixed with damaged packs that still hold intact blobs
+		variant := []string{"ghost-low", "ghost-high", "ghost-rand", "removed-earlier", "unindexed-truncated", "unindexed-intact", "ghost-low"}[r.Intn(7)]
+		if r.Intn(3) == 0 {
+			if _, _, err := vCraftLongFiles(e, r); err == nil {
+				desc = "long-files "
+			}
+		}
+		var extra []string
+		if strings.HasPrefix(variant, "unindexed-") {
+			// a killed backup leaves packs no index file mentions; named in `repair packs`, one whose header is
+			// readable must be salvaged through its header, one whose header is cut off yields nothing
+			_, _ = c.l.exec("backup!3")
+			if un := c.unindexedPacks(); len(un) > 0 {
+				o := un[r.Intn(len(un))]
+				if variant == "unindexed-truncated" {
+					d := c.get(o)
+					c.put(o, d[:len(d)-1-r.Intn(20)])
+				}
+				extra = append(extra, o)
+			} else {
+				variant = "ghost-low"
+			}
+		}
+		packs = e.store.Names(backend.PackFile)
+		dp := c.dataPacks(packs)
+		perm := r.Perm(len(dp))
+		nsalv := 1 + r.Intn(2)
+		var salv []string
+		for _, i := range perm {
+			if len(salv) < nsalv && len(c.blobsOf(dp[i])) >= 2 {
+				salv = append(salv, dp[i])
+				c.flipBlobs(dp[i], []int{r.Intn(len(c.blobsOf(dp[i])))})
+			}
+		}
+		ids := append([]string{}, salv...)
+		switch variant {
+		case "removed-earlier":
+			var a string
+			for _, i := range perm {
+				if !vHas(salv, dp[i]) {
+					a = dp[i]
+				}
+			}
+			if a == "" {
+				variant = "ghost-low"
+				ids = append(ids, c.ghostID("low"))
+				break
+			}
+			c.flipBlobs(a, []int{0})
+			ids = append(ids, a)
+			sort.Strings(ids)
+			return [][]string{{a}, ids}, desc + fmt.Sprintf("%s: %v flipped, first `repair packs %.8s`, then all of %v", variant, vShort(append(salv, a)), a, vShort(ids))
+		case "unindexed-truncated", "unindexed-intact":
+			ids = append(ids, extra...)
+		default:
+			ids = append(ids, c.ghostID(strings.TrimPrefix(variant, "ghost-")))
+			if r.Intn(3) == 0 {
+				ids = append(ids, c.ghostID("rand"))
+			}
+		}
+		sort.Strings(ids)
+		return [][]string{ids}, desc + fmt.Sprintf("%s: one blob flipped in each of %v, ids %v", variant, vShort(salv), vShort(ids))
+	}
+	// "rand": one pack, bit flips at random offsets of the blob area or a tail truncation that destroys the header
+	victim := packs[r.Intn(len(packs))]
+	d := c.get(victim)
+	kind := "bitflips"
+	if r.Intn(4) == 0 {
+		kind = "truncated"
+		d = d[:len(d)-1-r.Intn(60)]
+	} else {
+		bl := c.blobsOf(victim)
+		end := len(d)
+		if len(bl) > 0 {
+			end = int(bl[len(bl)-1].Offset + bl[len(bl)-1].Length)
+		}
+		for k := 0; k < 1+r.Intn(3); k++ {
+			d[r.Intn(end)] ^= byte(1 << uint(r.Intn(8)))
+		}
+	}
+	c.put(victim, d)
+	return [][]string{{victim}}, fmt.Sprintf("pack %.8s %s", victim, kind)
+}
+
 func TestVerif_C34(t *testing.T) {
-	res := kit.NewResult("one case = one damaged pack (bit flips at seeded offsets of its blob area, or a tail truncation that also destroys the header) of a generated repository followed by the real `repair packs <id>` (optionally killed at its k-th mutating operation and re-run) and `repair snapshots --forget`; judged by RepoTrace.tla R_RepairKeepsReadable (a pack is removed only after every blob still readable from it is indexed in another pack) and the baseline-relative invariants at every step, by the real check afterwards, and by comparing every file that was fully readable before the repair with the repaired snapshots; distinct by scenario seed")
+	res := kit.NewResult("one case = one damaged generated repository followed by the real `repair packs <ids>` (one or two invocations, optionally killed at the k-th mutating operation and re-run; `repair index` for a lost pack) and `repair snapshots --forget`.  Classes: rand = one pack with bit flips at seeded offsets of its blob area or a tail truncation that destroys the header; craft = snapshots whose files have 2..6 content entries with shared and repeated blobs (spread over several packs), one of their data packs lost / cut inside the blob area / 1..3 neighbouring blobs flipped; multi = `repair packs` with several ids mixing damaged-but-salvageable packs with ids that yield no blob (id that does not exist, pack removed by an earlier run, unindexed pack with truncated header) and unindexed packs with intact header, ordered before / behind the salvageable ones.  Judged by RepoTrace.tla R_RepairKeepsReadable (a pack is removed only after every blob still readable from it is indexed in another pack) and the baseline-relative invariants at every step, by the real check afterwards, and by comparing every file that was fully readable before the repair with the repaired snapshots; distinct by scenario seed")
 	tr := kit.NewNDJSON("trace.ndjson")
 	defer tr.Close()
-	ns := kit.Pick(12, 250)
+	classOf := func(si int) string {
+		if kit.Thorough() {
+			return []string{"rand", "craft", "multi", "rand"}[si%4]
+		}
+		return []string{"rand", "craft", "multi", "craft", "multi", "rand", "craft", "multi"}[si%8]
+	}
+	ns := kit.Pick(16, 250)
 	for si := 0; si < ns; si++ {
 		seed := kit.Seed()*100000 + 3400 + int64(si)
 		r := rand.New(rand.NewSource(seed))
-		l, err := newVLife(t, seed, []string{"2", "1"}[si%2], true)
+		class := classOf(si)
+		l, err := newVLife(t, seed, []string{"2", "1"}[(si/2)%2], true)
 		if err != nil {
 			res.Problem("scenario %d: %v", seed, err)
 			continue
@@ -113,50 +363,59 @@ func TestVerif_C34(t *testing.T) {
 			}
 		}
 		e := l.e
-		packs := e.store.Names(backend.PackFile)
-		victim := packs[r.Intn(len(packs))]
-		h := backend.Handle{Type: backend.PackFile, Name: victim}
-		d, _ := e.store.Get(h)
-		d = append([]byte{}, d...)
-		kind := "bitflips"
-		if r.Intn(4) == 0 {
-			kind = "truncated"
-			d = d[:len(d)-1-r.Intn(60)]
-		} else {
-			bl, _, _ := kit.NewProjector(e.projector().Key).DecodePack(d, false)
-			end := len(d)
-			if len(bl) > 0 {
-				end = int(bl[len(bl)-1].Offset + bl[len(bl)-1].Length)
-			}
-			for k := 0; k < 1+r.Intn(3); k++ {
-				d[r.Intn(end)] ^= byte(1 << uint(r.Intn(8)))
-			}
-		}
-		e.store.EnvPut(h, d)
+		c := &c34Env{l: l, e: e, r: r, proj: e.projector()}
+		runs, desc := c34Damage(c, class)
+		vMaxUnavailableRun = 0
 		before, _, err := vSnapshotViews(t, e)
 		if err != nil {
 			res.Problem("scenario %d: views before: %v", seed, err)
 			continue
 		}
+		maxRun := vMaxUnavailableRun
 		cwd, _ := os.Getwd()
 		_ = os.Chdir(e.base) // repair packs drops backup copies of the packs into the current directory
+		cleanCopies := func() {
+			if m, _ := filepath.Glob("pack-*"); m != nil {
+				for _, f := range m {
+					_ = os.Remove(f)
+				}
+			}
+		}
 		crash := 0
 		if r.Intn(3) == 0 {
 			crash = 1 + r.Intn(5)
-			_ = l.runCmd(e, "repair-packs", crash, func(ctx context.Context, g global.Options) error {
-				return runRepairPacks(ctx, g, g.Term, []string{victim})
-			})
-			for _, f := range []string{"pack-" + victim} {
-				_ = os.Remove(f)
-			}
 		}
-		rerr := e.run("repair-packs", nil, func(ctx context.Context, g global.Options) error {
-			return runRepairPacks(ctx, g, g.Term, []string{victim})
-		})
+		desc = fmt.Sprintf("class=%s %s crash=%d", class, desc, crash)
+		var rerr error
+		for ri, ids := range runs {
+			body := func(ctx context.Context, g global.Options) error {
+				if len(ids) == 0 {
+					return runRebuildIndex(ctx, RepairIndexOptions{}, g, g.Term)
+				}
+				return runRepairPacks(ctx, g, g.Term, ids)
+			}
+			name := "repair-packs"
+			if len(ids) == 0 {
+				name = "repair-index"
+			}
+			if crash > 0 && ri == len(runs)-1 {
+				_ = l.runCmd(e, name, crash, body)
+				cleanCopies()
+			}
+			if err := e.run(name, nil, body); err != nil && rerr == nil {
+				rerr = err
+			}
+			cleanCopies()
+		}
 		_ = os.Chdir(cwd)
-		desc := fmt.Sprintf("pack %.8s %s crash=%d", victim, kind, crash)
 		res.Case(fmt.Sprintf("%d", seed), true)
-		res.Count("damage_"+kind, 1)
+		res.Count("class_"+class, 1)
+		if maxRun >= 2 {
+			res.Count("file_with_two_or_more_neighbouring_unavailable_entries", 1)
+		}
+		if len(runs[len(runs)-1]) >= 2 {
+			res.Count("repair_packs_with_several_ids", 1)
+		}
 		if rerr != nil && !(crash > 0 && strings.Contains(rerr.Error(), "not found")) {
 			// after a crashed first run the pack may already be gone; otherwise repair packs must work
 			res.Violate("repair-packs/fails", fmt.Sprintf("scenario %d (%s): repair packs failed: %v :: %s", seed, desc, rerr, vTail(e.lastErr, 300)), map[string]any{"scenario": seed})
@@ -223,8 +482,8 @@ func TestVerif_C34(t *testing.T) {
 				}
 			}
 		}
-		if si < 4 {
-			res.Sample(map[string]any{"scenario": seed, "damage": kind, "crash_at": crash})
+		if si < 6 {
+			res.Sample(map[string]any{"scenario": seed, "class": class, "damage": desc, "crash_at": crash})
 		}
 		tr.Write(kit.Ev{"ev": "Reset", "proc": "env", "history": seed, "desc": desc})
 		vWriteTrace(tr, e.trace(false))
